@@ -2,7 +2,6 @@ package main
 
 func runNotify(a []string) { panic("not built yet") }
 func runConc(a []string)   { panic("not built yet") }
-func runFlock(a []string)  { panic("not built yet") }
 func runSeg(a []string)    { panic("not built yet") }
 func runPure(a []string)   { panic("not built yet") }
 func damage(st *hstate, a []string) []string { return []string{"err UnknownOp"} }
